@@ -103,7 +103,7 @@ fn sweep(ctx: &mut Ctx, idx: u64) {
 
 fn gen_lane(ctx: &mut Ctx, idx: u64) {
     let mut r = ctx.rng();
-    let o = ROpts { substvars: idx % 2 == 0, ..ROpts::default() };
+    let o = ROpts { substvars: idx % 2 == 0, inner_newlines: idx % 4 < 2, ..ROpts::default() };
     let g = relgen::gen_field(&mut r, &o);
     let t = g.text;
     check_text(ctx, &t, true);
